@@ -142,6 +142,16 @@ def suite_call(ctx, case):
                 x, y = out[T[i], T[j]], out[T[j], T[i]]
                 sym = sym and ((x is None) == (y is None)) and (x is None or bool(np.allclose(x, y, rtol=1e-9, atol=0, equal_nan=True)))
     ctx.pred('call', case, sym, '%s result is not symmetric in the two type labels' % call, key='C05:symmetric')
+    # a returned MatrixArray is addressed by the SYSTEM's type labels: the pair read by name is the pair at that position
+    if isinstance(out, MatrixArray):
+        ty = list(p.sys.types); byname = True
+        try:
+            for i in range(n):
+                for j in range(n):
+                    byname = byname and bool(np.array_equal(out[ty[i], ty[j]], out.data[:, i, j], equal_nan=True))
+        except Exception as e:
+            byname = False
+        ctx.pred('call', case, byname and list(out.types) == ty, '%s returns a MatrixArray whose pairs cannot be read by the system\'s type labels (labels %r)' % (call, getattr(out, 'types', None)), key='C05:labels')
     # second evaluation on the SAME object after (i) the caller modified the value it got back and (ii) the stored correlations were
     # edited in place (hand-populating the object pair by pair): the definition applies to the arrays as they are now
     if case.get('again') and n >= 1:
